@@ -404,3 +404,10 @@ def run(ctx):
     round3.check_dup_table_on_thread_spec(ctx, "R7.6")
     round3.share(ctx, "R7.6", "C15", lambda i_: i_["rule"] == "R15.4" and i_["inst"].startswith("create_proc:"), "rank-source:",
                  "no thread of the process shows its rank while a task body runs", 1)
+    ctx.rule("R7.7", "the task view follows the body that runs after the event: expand_transition_value turns the event "
+             "into x, e, p, r, X (execute over a running body) or E (end with a body still running) for all 16 "
+             "(event, was running, runs now) combinations, and update_task_channels publishes the current body for x and "
+             "r, clears the view for e and p and switches from the previous to the current body for X and E, in both "
+             "task models")
+    from rules import round8
+    round8.check_task_transition_dispatch(ctx, "R7.7")
